@@ -123,11 +123,10 @@ class Ctx(object):
 
     def real(self, name):
         if self.concrete is not None:
-            from fractions import Fraction
             fr = self.concrete.get(name + '#frac')
             if fr is not None:
-                return Fraction(fr)
-            return Fraction(self.concrete.get(name, 0))
+                return Q(fr)
+            return Q(self.concrete.get(name, 0))
         return SymReal(self.fresh_real(name))
 
     def fresh_bv(self, name, w):
@@ -591,6 +590,48 @@ def _r(x):
         f = Fraction(x)
         return z3.RealVal(f.numerator) / z3.RealVal(f.denominator)
     raise TypeError('cannot lift %r to Real' % type(x))
+
+
+from fractions import Fraction as _Fraction
+
+
+class Q(_Fraction):
+    """exact rational used for real-valued inputs in concrete replay: arithmetic with Python floats
+    stays exact (the float is taken at its exact binary value), matching the idealised-real semantics
+    of the exploration instead of re-introducing IEEE rounding at boundary values"""
+
+    @staticmethod
+    def _x(o):
+        if isinstance(o, float):
+            return _Fraction(o)
+        return o
+
+    def __add__(self, o):
+        return Q(_Fraction.__add__(self, Q._x(o)))
+
+    def __radd__(self, o):
+        return Q(_Fraction.__radd__(self, Q._x(o)))
+
+    def __sub__(self, o):
+        return Q(_Fraction.__sub__(self, Q._x(o)))
+
+    def __rsub__(self, o):
+        return Q(_Fraction.__rsub__(self, Q._x(o)))
+
+    def __mul__(self, o):
+        return Q(_Fraction.__mul__(self, Q._x(o)))
+
+    def __rmul__(self, o):
+        return Q(_Fraction.__rmul__(self, Q._x(o)))
+
+    def __truediv__(self, o):
+        return Q(_Fraction.__truediv__(self, Q._x(o)))
+
+    def __rtruediv__(self, o):
+        return Q(_Fraction.__rtruediv__(self, Q._x(o)))
+
+    def __neg__(self):
+        return Q(_Fraction.__neg__(self))
 
 
 class SymReal(object):
